@@ -233,6 +233,10 @@ var c05Progs = []string{
 	// keys whose type comes from an element of a container (the element type of
 	// an empty literal is ⊥, which is not a primitive key type)
 	"[x[i]: y]", "[x[i]: y, x[i]: y]", "[m[k]: x]", "[[][i]: x]", "[[:][k]: x]", "[if(c, x[i], x[i]): y]", "[get(x, i, y): c]", "[[x][i]: y]",
+	// one variable (one type object) on both sides of a polymorphic overload
+	"x == x", "x != x", "union(x, x)", "{f: x}.f == x", "if(c, x, y) == if(c, x, y)", "max(x, x)", "get(xs, i, x) == x",
+	// empty literals next to containers of other element types
+	"[[], [x]]", "[[x], []]", "if(c, [x], [])", "if(c, [], [x])", "[[:], [k: x]]", "get(xs, i, []) == []", "if(c, [[], [o]][1][0], x)",
 	"type", "let + 1", "[x][0].a", "{f: x}.f", "{f: x}.g", "get(mo, k, o)", "get(o, o)", "o + 1", "o.a", "o[0]", "len(o)", "o == o",
 }
 
